@@ -514,6 +514,18 @@ func (x *Exec) checkPost(st *State, vals []Val) {
 		}
 		x.oblige(st, "post", fmt.Sprintf("sets#%s@return#%d", clauseLabel(s, i), x.retCount), eq, token.NoPos)
 	}
+	unreach := false
+	for _, f := range strings.Fields(x.Spec.Attrs["unreachable_returns"]) {
+		if f == fmt.Sprint(x.retCount) {
+			unreach = true
+		}
+	}
+	if unreach {
+		// `attr unreachable_returns k ...`: the contract claims that return statement k is never
+		// executed; that is an obligation (instead of the reachability cover of ordinary returns)
+		x.oblige(st, "unreachable", fmt.Sprintf("return#%d declared unreachable", x.retCount), term.False, token.NoPos)
+		return
+	}
 	x.cover(st, fmt.Sprintf("return#%d", x.retCount), term.True)
 	for i, e := range x.Spec.Ensures {
 		if e.Name == "assumed" {
